@@ -6,7 +6,6 @@ From WM Require Import Base.Prelude Message.Model Value.Model Value.EqualsProofs
 Lemma msg_eta m : Msg (uuid m) (payload m) (meta m) = m.
 Proof. now destruct m. Qed.
 
-Definition env_of (dest : str) (m : msg) : envelope := Env dest (uuid m) (payload m) (meta m).
 
 Section EnvelopeProofs.
   Variable jenc : envelope -> option (list N).
@@ -278,3 +277,13 @@ Section ReplyProofs.
     destruct (p_err R p); simpl; auto. apply str_eqb_refl.
   Qed.
 End ReplyProofs.
+
+(** the acceptors applied to the implementation accept every round trip the theorems describe *)
+Lemma cqrs_rt_ok_intro V ts gen veqb (v : V) (mr : res msg) nfm (got : res V) :
+  (forall x, veqb x x = true) ->
+  (forall m, mr = Ok m -> got = Ok v /\ nfm = name_of V ts gen v) ->
+  cqrs_rt_ok V ts gen veqb v mr nfm got = true.
+Proof.
+  intros Hr H. unfold cqrs_rt_ok. destruct mr as [m|]; auto.
+  destruct (H m eq_refl) as [-> ->]. now rewrite str_eqb_refl, Hr.
+Qed.
